@@ -3481,7 +3481,7 @@ mod c15 {
         kani::cover!(ctrs.1 == u16::MAX && id == 1, "wraps past 0");
     }
 
-    // TIER: thorough
+    // TIER: quick!  (the only harness of get_next_sess_id; 334 s)
     // KIND: bounded (table of exactly 3 of MAX_SESSIONS=32 sessions)
     #[kani::proof]
     #[kani::unwind(7)]
